@@ -277,7 +277,11 @@ func (s *store) dispatchRequests() {
 				req.response <- s.update(req.username, req.password)
 			} else {
 				wdl.Printf("upgrade(local): upgrading '%s'", req.username)
-				if resp := s.update(req.username, req.password); resp.err != nil {
+				// the password may have been changed (or the user removed) since this upgrade was
+				// queued: only upgrade if the password is still the current one
+				if ok, _, upgradeable, _, _ := s.dir.Authenticate(req.username, req.password); !ok || !upgradeable {
+					wdl.Printf("upgrade(local): skipping outdated upgrade request for '%s'", req.username)
+				} else if resp := s.update(req.username, req.password); resp.err != nil {
 					wl.Printf("upgrade(local): failed for '%s': %v", req.username, resp.err)
 				} else {
 					wdl.Printf("upgrade(local): successfully upgraded '%s'", req.username)
